@@ -174,6 +174,26 @@ theorem C04_refusal_surfaces (retries : Nat) (cb : Outcome) (script : List Reply
   · rename_i hh; simp [hh] at hne
   · rfl
 
+/-- what counts as an acknowledgement on the wire, for every result code and every status: the status is not
+    of the rollback family, and the result code is Success or the status says the commit is decided -/
+theorem C04_acknowledged_iff (rc : RC) (st : Nat) :
+    acknowledged rc st = true ↔ rollbackFamily st = false ∧ (rc = .success ∨ commitFamily st = true) := by
+  unfold acknowledged
+  cases hr : rollbackFamily st <;> cases hc : commitFamily st <;> cases rc <;> simp
+
+/-- the two families are disjoint, so the order of the two tests in `commitRefusal` does not matter -/
+theorem C04_families_disjoint (st : Nat) : ¬ (rollbackFamily st = true ∧ commitFamily st = true) := by
+  unfold rollbackFamily commitFamily
+  simp only [List.mem_cons, List.mem_nil_iff, or_false, decide_eq_true_eq]
+  omega
+
+/-- end to end on the wire: nil only for an acknowledged reply, an error for every other one -/
+theorem C04_wire_truthful (retries : Nat) (rc : RC) (st : Nat) :
+    (withGlobalTx retries .ok .ok [replyOf rc st] none).2 = (if acknowledged rc st then .ok else .err) := by
+  unfold withGlobalTx replyOf
+  have ha : ¬ attempts retries ≤ 0 := by unfold attempts; split <;> omega
+  cases h : acknowledged rc st <;> simp [phase2, cancelled, ha]
+
 /-- before the repair a refused commit was reported as success (finding C04-refused-commit, closed) -/
 theorem C04_before_fix_refused_commit_is_success :
     withGlobalTxBeforeFix 5 .ok .ok [.failed] none = ([.begin, .commit], .ok) := by decide
